@@ -175,6 +175,10 @@ def run(ctx):
             case = A.gen_case(ctx.rng, k=2, N=ctx.rng.choice([9, 14, 25]), general="residue")
         ctx.hit("general_stream")
         check(ctx, case, reqs, pend)
+    for _ in range(ctx.n(6)):       # whole categories missing (propagating policy)
+        case = A.by_category_missing(ctx.rng, A.gen_case(ctx.rng, k=ctx.rng.choice([1, 2, 2, 3]), N=ctx.rng.choice([3, 5, 8, 13])))
+        ctx.hit("by_category_missing")
+        check(ctx, case, reqs, pend)
     for it in range(ctx.n(3, 48)):   # extents straddling the narrow coordinate types the array cube picks (2^8; thorough: 2^16)
         case = A.gen_case(ctx.rng, wide="u16" if (ctx.tier == "thorough" and it % 8 == 7) else "u8")
         ctx.hit("wide_extents")
